@@ -11,8 +11,75 @@ ORACLES = {'ruleids'}
 GENS = [dict(max_n=4, multi=True), dict(max_n=4, multi=True, mixed_heads=True, nbest_max=4)]
 
 
+def reader_labels(ctx):
+    """(b) trees produced by the treebank readers: a binary node whose category the active grammar
+    derives from its children carries that rule's label; only underivable nodes are unknown"""
+    import os
+    import tempfile
+    import tree_common as T
+    import gen_cat
+    from depccg.printer.auto import auto_of
+    from depccg.tools.reader import read_auto
+    from depccg.grammar import en, ja
+    from depccg import lang as dlang
+    rng = ctx.rng
+    tmpdir = tempfile.mkdtemp(prefix='verif_c12_')
+    path = os.path.join(tmpdir, 'one.auto')
+    seen = {'labelled': 0, 'unk': 0}
+    try:
+        for i in range(ctx.budget(500, 5000)):
+            lang = 'ja' if i % 3 == 2 else 'en'
+            mod = en if lang == 'en' else ja
+            if i % 5 == 4:
+                t = T.arbitrary_tree(rng, lang, rng.randint(2, 5), gen_cat.inventory(lang),
+                                     T.EN_LABELS if lang == 'en' else T.JA_LABELS, dict(awkward=0.1))
+            else:
+                t = T.licensed_tree(rng, lang, rng.randint(0, 4), dict(awkward=0.1))
+            line = auto_of(t)
+            with open(path, 'w', encoding='utf-8') as f:
+                f.write('ID=1\n' + line + '\n')
+            dlang.set_global_language_to(lang)
+            try:
+                rt = list(read_auto(path))[0].tree
+            except Exception as e:
+                ctx.fail(f'read_auto raised {type(e).__name__} on a printed line', {'line': line}, fingerprint=['reader-raise'])
+                continue
+            finally:
+                dlang.set_global_language_to('en')
+            ctx.evaluations += 1
+
+            def walk(n):
+                if n.is_leaf:
+                    return
+                if not n.is_unary:
+                    l, r = n.children
+                    rs = [x for x in mod.apply_binary_rules(l.cat, r.cat) if x.cat == n.cat]
+                    labs = {(x.op_string, x.op_symbol) for x in rs}
+                    if rs:
+                        seen['labelled'] += 1
+                        ctx.nontrivial_add(('reader', str(l.cat), str(r.cat), str(n.cat)))
+                        if (n.op_string, n.op_symbol) not in labs:
+                            ctx.fail(f'read-back node {n.cat} <- ({l.cat}, {r.cat}) is labelled {n.op_string}/{n.op_symbol}; '
+                                     f'the grammar derives it by {sorted(labs)}', {'line': line, 'lang': lang},
+                                     fingerprint=['reader-label', lang])
+                    else:
+                        seen['unk'] += 1
+                        if (n.op_string, n.op_symbol) != ('unk', '<unk>'):
+                            ctx.fail(f'underivable read-back node {n.cat} is labelled {n.op_string}', {'line': line, 'lang': lang},
+                                     fingerprint=['reader-unk', lang])
+                for c in n.children:
+                    walk(c)
+            walk(rt)
+    finally:
+        if os.path.exists(path):
+            os.remove(path)
+        os.rmdir(tmpdir)
+    ctx.extra['reader_nodes'] = seen
+
+
 def extra(ctx):
     import glue_checks
+    reader_labels(ctx)
     glue_checks.single_suite(ctx, {'labels'}, [dict(max_n=4, multi=True), dict(max_n=4, multi=True, mixed_heads=True, nbest_max=3)], ctx.budget(600, 6000))
 
 
